@@ -10,7 +10,7 @@
     the special case [optimize_events].  The model is tied to the code by the correspondence of
     harness/props/C13.py (the model is evaluated inside Coq on the recorded oracles). *)
 From Coq Require Import List Bool Arith Reals.
-From CB Require Import Model.C13_Optimizer Proofs.C13_Optimizer Proofs.C13_Instances.
+From CB Require Import Model.C13_Optimizer Proofs.C13_Optimizer Proofs.C13_Whole Proofs.C13_Instances.
 Import ListNotations.
 
 (** ** no worse *)
@@ -36,6 +36,37 @@ Definition C13_optimize_no_worse_stmt : Prop :=
       optimize leb g st mesh its = (tr, fin, mesh') -> completed tr = true ->
       g_gq g (pts st) = Some q ->
       exists q', g_gq g mesh' = Some q' /\ leb q' q = true.
+
+(** optimize() as a whole needs NO hypothesis on the entry state: the sensitivity pass of its first
+    iteration (one probe per clamp, in grid.clamps order) puts every clamp on function(its own initial
+    params) and every follower on its image ([snap]: parameters unchanged, every clamp sits); the
+    backported result is no worse than that snapped state.  (Before the snap the clamped vertices are
+    within the clamp-initialisation tolerance of function(params): monitored by the harness.) *)
+Definition C13_optimize_any_entry_stmt : Prop :=
+  forall (X P V : Type) (leb : V -> V -> bool) (g : grid X P V),
+    total leb -> transitive leb ->
+    forall probes order rest (st : state X P) mesh tr fin mesh',
+      wf g (length (pts st)) -> length probes = length (g_clamps g) ->
+      optimize leb g st mesh ((probes, order) :: rest) = (tr, fin, mesh') -> completed tr = true ->
+      exists tr0 snap q_s q',
+        run_events leb g st (EMeasure :: probe_events probes) = (tr0, snap) /\ completed tr0 = true /\
+        prm snap = prm st /\ inv g snap /\
+        g_gq g (pts snap) = Some q_s /\ mesh' = pts fin /\ g_gq g mesh' = Some q' /\ leb q' q_s = true.
+
+(** its hypotheses hold on a run that starts OFF the manifolds (junction 0 at 5, function(params) = 3;
+    follower at 99, image 13) *)
+Example C13_any_entry_satisfiable :
+  let st := {| pts := [5; 4; 99; 7]; prm := [3; 4] |} in
+  let its := [([[3; 4]; [4; 5]], [(0, {| o_trials := [3; 1]; o_raises := false |});
+                                  (1, {| o_trials := [4; 6]; o_raises := false |})])] in
+  exists tr fin,
+    wf ex_grid (length (pts st)) /\ optimize Nat.leb ex_grid st [0; 0; 0; 0] its = (tr, fin, [1; 4; 11; 7]) /\
+    completed tr = true /\ map snd tr = [Measured 115; Probed; Probed; Kept 27 23; RolledBack 23 25; Measured 23] /\
+    pts fin = [1; 4; 11; 7].
+Proof.
+  eexists. eexists. split; [apply wfb_wf; reflexivity|].
+  split; [vm_compute; reflexivity|]. split; [reflexivity|]. split; reflexivity.
+Qed.
 
 (** an improvement that is kept is a strict one, and the state kept is the minimiser's LAST trial *)
 Definition C13_kept_stmt : Prop :=
@@ -158,6 +189,9 @@ Proof. exact run_events_no_worse. Qed.
 Theorem C13_optimize_no_worse : C13_optimize_no_worse_stmt.
 Proof. exact optimize_no_worse. Qed.
 
+Theorem C13_optimize_any_entry : C13_optimize_any_entry_stmt.
+Proof. exact optimize_any_entry. Qed.
+
 Theorem C13_kept : C13_kept_stmt.
 Proof. exact optimize_clamp_kept. Qed.
 
@@ -202,6 +236,7 @@ Proof. exact no_worse_unconditional_refuted. Qed.
 
 Print Assumptions C13_no_worse.
 Print Assumptions C13_optimize_no_worse.
+Print Assumptions C13_optimize_any_entry.
 Print Assumptions C13_kept.
 Print Assumptions C13_frame.
 Print Assumptions C13_frame_params.
